@@ -107,6 +107,16 @@ def run_job(job):
                 files["f%02d" % i] = model.local_naive(os.lstat(p).st_mtime_ns // 1_000_000_000, tz)
                 if ns % 1_000_000_000:
                     res.count("mtimes_with_subsecond_part")
+            # two directories whose only child has the same name, visited one after the other, with different times
+            tw = sorted(files.items())
+            if len(tw) >= 2:
+                for k, (src, when) in enumerate((tw[0], tw[-1])):
+                    os.mkdir(os.path.join(d, "tw%d" % k))
+                    p = os.path.join(d, "tw%d" % k, "only")
+                    open(p, "w").close()
+                    ts = os.lstat(os.path.join(d, src)).st_mtime_ns
+                    os.utime(p, ns=(ts, ts))
+                    files["tw%d/only" % k] = when
             littext = model.quote_lit(lit) if quoted else lit
             # the same grid as stored times of zip members (local wall-clock time, two-second resolution, from 1980 on):
             # a member is an entry with a time like any other
@@ -127,7 +137,7 @@ def run_job(job):
             per_op = {}
             for op in OPS:
                 spelled = rng.choice(ALIASES[op])
-                q = "name, modified from d%d where modified %s %s into list" % (li, spelled, littext)
+                q = "path, modified from d%d where modified %s %s into list" % (li, spelled, littext)
                 day0 = datetime.datetime.now(zoneinfo.ZoneInfo(tz)).date()
                 r = runner.run([q], cwd=w, home=home, tz=tz, fake_epoch=fake)
                 res.ev()
@@ -149,10 +159,11 @@ def run_job(job):
                     res.viol("`modified %s %s` (TZ=%s): status %s stderr %r" % (spelled, littext, tz, r.rc, r.err[:150]), ctx)
                     continue
                 try:
-                    rows = r.rows(2)
+                    rows = [(os.path.relpath(p_, "d%d" % li), m_) for p_, m_ in r.rows(2)]
                 except ValueError as e:
                     res.viol("undecodable output: %s" % e, ctx)
                     continue
+                rows = [(n, m) for n, m in rows if n in files]          # the two `tw` directories themselves carry no judged time
                 got = set(n for n, _m in rows)
                 exp = set(n for n, t_ in files.items() if model.date_cmp(op, t_, a, b))
                 bad = False
@@ -206,11 +217,11 @@ def run_job(job):
                 lit2 = render_literal(rng, t2, rng.choice(["day", "hour", "minute", "second"]))
                 iv2 = model.date_interval(lit2, tz)
                 if iv2 is not None:
-                    qb = "name from d%d where modified between %s and %s into list" % (li, model.quote_lit(lit), model.quote_lit(lit2))
+                    qb = "path from d%d where modified between %s and %s into list" % (li, model.quote_lit(lit), model.quote_lit(lit2))
                     rb = runner.run([qb], cwd=w, home=home, tz=tz)
                     res.ev()
                     if rb.verdict == "ok" and rb.rc == 0 and not rb.err:
-                        gotb = set(rb.rows())
+                        gotb = set(os.path.relpath(x, "d%d" % li) for x in rb.rows()) & set(files)
                         expb = set(n for n, t_ in files.items() if a <= t_ <= iv2[1])
                         if gotb != expb:
                             res.viol("`modified between '%s' and '%s'` (TZ=%s): +%s -%s" % (lit, lit2, tz,
